@@ -145,6 +145,27 @@ def register():
         _log("root", "sub", x, q)
         return [x, context.evaluate(q).get()]
 
+    @command
+    def nosub(x, q, context=None):
+        # switches caching off and THEN evaluates a sub-query on its own context (not exported: implementation-side oracle of C05 only)
+        _log("root", "nosub", x, q)
+        context.disable_cache()
+        return [x, context.evaluate(q).get()]
+
+    @command
+    def subon(x, q, context=None):
+        # evaluates a sub-query ON its input value (evaluate_on from inside a command; not exported: oracle of C05 only)
+        _log("root", "subon", x, q)
+        return [x, context.evaluate_on(x, q).get()]
+
+    @command
+    def dkeys(d):
+        # order-sensitive view of a dictionary (not exported: implementation-side oracle of C04 only)
+        _log("root", "dkeys", None)
+        if not isinstance(d, dict):
+            raise TypeError("d")
+        return ",".join(str(k) for k in d)
+
     @command(Keep="k1", low="l1")
     def attr1(x):
         _log("root", "attr1", x)
@@ -154,6 +175,17 @@ def register():
     def attr2(x):
         _log("root", "attr2", x)
         return x
+
+    @command
+    def fresh(x):
+        # a command that builds its own State object (as liquer's df_from does): the evaluator must carry the state variables on.
+        # NOT part of the exported vocabulary (such a command drops what only the state carries - file name, inherited attributes -
+        # by the library's design): used by an implementation-side oracle of C01 only
+        _log("root", "fresh", x)
+        from liquer.state import State
+        st = State().with_data(x)
+        st.vars = {}
+        return st
 
     @command
     def getvar(state, name):
